@@ -1,6 +1,6 @@
 (* C05 — a part type accepts exactly the records with its signature overhangs.
    Statements only. *)
-From MV Require Import Base Regex RegexLemmas Shape ShapeLemmas Typing TypingLemmas ShapeTyping PartLemmas.
+From MV Require Import Base Regex RegexLemmas Shape ShapeLemmas Typing TypingLemmas ShapeTyping PartLemmas Anchors Canonical.
 
 (* for every pair of classes of the common shape with the same role and enzyme whose
    patterns differ only in that the overhang atoms of the part are sub-classes of those of
@@ -14,6 +14,36 @@ Theorem C05_iff : forall (P G : shape) (cP cG : cls) (s : list letter),
   is_valid cP s true = is_valid cG s true && sig_test P cG s.
 Proof. exact part_iff. Qed.
 Print Assumptions C05_iff.
+
+(* instantiated, symbolically, for EVERY enzyme (any site, offset, overhang length) and EVERY
+   signature whose letter classes lie within N (all IUPAC letters do) and whose two halves have
+   the enzyme's overhang length: module parts and vector parts *)
+Theorem C05_module_parts : forall e u d s,
+  forallb (fun c => csubb c setN) u = true -> forallb (fun c => csubb c setN) d = true ->
+  length u = eovh e -> length d = eovh e ->
+  unique_occ (module_structure e) s ->
+  is_valid (C RModule e (part_structure RModule e (atoms u) (atoms d))) s true =
+  is_valid (C RModule e (module_structure e)) s true &&
+  sig_test (module_shape e u d) (C RModule e (module_structure e)) s.
+Proof. exact part_iff_module. Qed.
+Print Assumptions C05_module_parts.
+
+Theorem C05_vector_parts : forall e up down s,
+  forallb (fun c => csubb c setN) up = true -> forallb (fun c => csubb c setN) down = true ->
+  length up = eovh e -> length down = eovh e ->
+  unique_occ (vector_structure e) s ->
+  is_valid (C RVector e (part_structure RVector e (atoms up) (atoms down))) s true =
+  is_valid (C RVector e (vector_structure e)) s true &&
+  sig_test (vector_shape e down up) (C RVector e (vector_structure e)) s.
+Proof. exact part_iff_vector. Qed.
+Print Assumptions C05_vector_parts.
+
+(* the uniqueness hypothesis follows from "the recognition site and its reverse complement occur once each" *)
+Theorem C05_two_sites : forall (site rsite : list code) (off ovh : nat) sh s,
+  frames site rsite off ovh sh = true -> 0 < length site -> 0 < length rsite ->
+  occurs_once site s -> occurs_once rsite s -> unique_occ (shape_pat sh) s.
+Proof. exact framed_unique_occ. Qed.
+Print Assumptions C05_two_sites.
 
 (* every match of the part class is a match of the generic class at the same place *)
 Theorem C05_refines : forall (P G : shape), shape_sub P G -> forall s i, i < length s ->
